@@ -94,8 +94,19 @@ func (v *Value) IsNumber() bool {
 
 // IsTime checks whether the underlying value is a time.Time.
 func (v *Value) IsTime() bool {
-	_, ok := v.Interface().(time.Time)
+	_, ok := v.timeValue()
 	return ok
+}
+
+// timeValue is the time.Time the value holds - itself, or behind a pointer (an optional
+// *time.Time field), like every other accessor follows one pointer.
+func (v *Value) timeValue() (time.Time, bool) {
+	rv := v.getResolvedValue()
+	if !rv.IsValid() || !rv.CanInterface() {
+		return time.Time{}, false
+	}
+	tm, ok := rv.Interface().(time.Time)
+	return tm, ok
 }
 
 // IsNil checks whether the underlying value is NIL
@@ -247,7 +258,7 @@ func (v *Value) Bool() bool {
 // Time returns the underlying value as time.Time.
 // If the underlying value is not a time.Time, it returns the zero value of time.Time.
 func (v *Value) Time() time.Time {
-	tm, ok := v.Interface().(time.Time)
+	tm, ok := v.timeValue()
 	if ok {
 		return tm
 	}
